@@ -6,6 +6,8 @@ import NutsModel.Compose.Dag
 import NutsProofs.Lemmas.C06
 import NutsProofs.Lemmas.C08Inv
 import NutsProofs.Lemmas.C07LiveN
+import NutsProofs.Lemmas.C08Order
+import NutsProofs.Lemmas.Sort
 
 namespace Nuts.Compose.Dag
 open Nuts
@@ -684,6 +686,106 @@ theorem skeleton_view (w : Wire) (env : C06.Env) {l : List C06.Tx} {s : C08.Stat
       congr 1
       exact ih (fun p hp => h p (List.mem_cons_of_mem _ hp))
   exact this t.prevs (hp t ht)
+
+/-! ### the clock-ordered listing (C07 `findBetween` / C08 `findBetweenLC`) -/
+
+/-- the (clock, ref) order on C06 transactions -/
+def lt6 (x y : C06.Tx) : Bool := x.clock < y.clock || (x.clock == y.clock && x.ref < y.ref)
+def win6 (a b : Nat) (t : C06.Tx) : Bool := decide (a ≤ t.clock ∧ t.clock < b)
+
+theorem lt6_asymm (a b : C06.Tx) (h : lt6 a b = true) : lt6 b a = false := by
+  simp only [lt6, Bool.or_eq_true, Bool.and_eq_true, decide_eq_true_eq, beq_iff_eq] at h
+  simp only [lt6, Bool.or_eq_false_iff, Bool.and_eq_false_iff, decide_eq_false_iff_not, beq_eq_false_iff_ne]
+  omega
+
+theorem lt6_trans (a b c : C06.Tx) (h1 : lt6 b a = false) (h2 : lt6 c b = false) : lt6 c a = false := by
+  simp only [lt6, Bool.or_eq_false_iff, Bool.and_eq_false_iff, decide_eq_false_iff_not, beq_eq_false_iff_ne] at *
+  omega
+
+theorem listing_view (w : Wire) (env : C06.Env) {l : List C06.Tx} (hs : ∀ t ∈ l, Small t.ref) (nd : (C06.refsOf l).Nodup)
+    (a b : Nat) :
+    C08.specListing (embList w l) a b = (Proto.findBetween (viewL w env l) a b).map (fun t => embRef t.ref) := by
+  have hsub : ∀ x ∈ l.filter (win6 a b), x ∈ l := fun x hx => (List.mem_filter.mp hx).1
+  -- C08 side
+  have h8 : C08.specListing (embList w l) a b = ((sortBy lt6 ((l.filter (win6 a b)).reverse)).map (embTx w)).map (·.ref) := by
+    unfold C08.specListing embList
+    rw [List.filter_map, List.filter_reverse]
+    congr 1
+    have : ((fun t : C08.Tx => decide (a ≤ t.clock ∧ t.clock < b)) ∘ embTx w) = win6 a b := rfl
+    rw [this]
+    apply C08.sortBy_map
+    intro x hx y hy
+    have hx' := hsub x (List.mem_reverse.mp hx)
+    have hy' := hsub y (List.mem_reverse.mp hy)
+    simp only [C08.txLt, embTx_clock, embTx_ref, embRef_toNat (hs x hx'), embRef_toNat (hs y hy')]
+    rfl
+  -- C07 side
+  have h7 : Proto.findBetween (viewL w env l) a b = (sortBy lt6 (l.filter (win6 a b))).map (viewTx w env) := by
+    unfold Proto.findBetween viewL
+    rw [List.filter_map]
+    have : ((fun t : Proto.Tx => decide (a ≤ t.clock) && decide (t.clock < b)) ∘ viewTx w env) = win6 a b := by
+      funext t; simp only [win6, Function.comp, viewTx_clock, Bool.decide_and]; rfl
+    rw [this]
+    apply C08.sortBy_map
+    intro x _ y _
+    rfl
+  rw [h8, h7]
+  have hperm : sortBy lt6 ((l.filter (win6 a b)).reverse) = sortBy lt6 (l.filter (win6 a b)) := by
+    apply sortBy_eq_of_perm lt6 lt6_asymm lt6_trans (List.reverse_perm _)
+    intro x hx y hy h1 h2
+    have hx' := hsub x (List.mem_reverse.mp hx)
+    have hy' := hsub y (List.mem_reverse.mp hy)
+    apply eq_of_ref nd hx' hy'
+    simp only [lt6, Bool.or_eq_false_iff, Bool.and_eq_false_iff, decide_eq_false_iff_not, beq_eq_false_iff_ne] at h1 h2
+    omega
+  rw [hperm, List.map_map, List.map_map]
+  rfl
+
+/-! ### the other doors of the admission layer -/
+
+/-- a TransactionList is a sequence of single deliveries: `handleList` ends in the state reached by delivering a prefix of
+    its items one by one -/
+theorem handleList_prefix (a : Adm) : ∀ (items : List C06.Item) (s : C06.St),
+    ∃ k, k ≤ items.length ∧
+      (C06.handleList a.env a.subs s items).1 = ((items.take k).map (fun it => Delivery.tx it.tx it.payload)).foldl (step6 a) s := by
+  intro items
+  induction items with
+  | nil => intro s; exact ⟨0, Nat.le_refl _, rfl⟩
+  | cons it rest ih =>
+    intro s
+    unfold C06.handleList
+    split
+    · exact ⟨0, Nat.zero_le _, rfl⟩
+    · split
+      · rename_i s' _ hadd
+        obtain ⟨k, hk, e⟩ := ih s'
+        refine ⟨k + 1, by simp; omega, ?_⟩
+        rw [e]
+        simp only [List.take_succ_cons, List.map_cons, List.foldl_cons]
+        have : step6 a s (.tx it.tx it.payload) = s' := by
+          show (C06.add a.env a.subs s it.tx it.payload).1 = s'
+          rw [hadd]
+        rw [this]
+      · rename_i s' e hadd
+        refine ⟨1, by simp, ?_⟩
+        have : step6 a s (.tx it.tx it.payload) = s' := by
+          show (C06.add a.env a.subs s it.tx it.payload).1 = s'
+          rw [hadd]
+        split <;> simp [this]
+      · rename_i s' e hadd
+        refine ⟨1, by simp, ?_⟩
+        have : step6 a s (.tx it.tx it.payload) = s' := by
+          show (C06.add a.env a.subs s it.tx it.payload).1 = s'
+          rw [hadd]
+        simp [this]
+
+theorem latePayload_txs (a : Adm) (s : C06.St) (ref p : Nat) : (C06.latePayload a.env a.subs s ref p).1.txs = s.txs := by
+  unfold C06.latePayload
+  split
+  · rfl
+  · split <;> rfl
+
+
 
 end ProtoView
 
